@@ -533,7 +533,11 @@ func check(prop, tier string) int {
 		}
 		path, ok := minimiseAndStore(bin, scratch, prop, v, tier)
 		if !ok {
-			fmt.Fprintf(os.Stderr, "verifctl: a violation of %s (%s) did not reproduce on replay in a fresh process: harness defect (nondeterminism)\n", prop, sig)
+			sp, _ := json.Marshal(v.Spec)
+			if len(sp) > 300 {
+				sp = append(sp[:300], "..."...)
+			}
+			fmt.Fprintf(os.Stderr, "verifctl: a violation of %s (%s) did not reproduce on replay in a fresh process: harness defect (nondeterminism); spec %s\n", prop, sig, sp)
 			return 2
 		}
 		violLines = append(violLines, fmt.Sprintf("VIOLATION property=%s replay=%s", prop, path))
@@ -579,6 +583,18 @@ type ReplayFile struct {
 	Note      string   `json:"note"`
 }
 
+// moveSigFirst: a run may violate several clauses (known findings among them); put the
+// one looked for first, report whether it is there at all.
+func moveSigFirst(r *RunResult, sig string) bool {
+	for i := range r.Violations {
+		if r.Violations[i].Signature == sig {
+			r.Violations[0], r.Violations[i] = r.Violations[i], r.Violations[0]
+			return true
+		}
+	}
+	return false
+}
+
 func minimiseAndStore(bin, scratch, prop string, v RunResult, tier string) (string, bool) {
 	sig := v.Violations[0].Signature
 	spec := v.Spec
@@ -609,11 +625,11 @@ func minimiseAndStore(bin, scratch, prop string, v RunResult, tier string) (stri
 	rs.Replay = tape
 	rs.KeepTrace = true
 	res, err := replaySpec(bin, scratch, rs)
-	if err != nil || res.Outcome != "violation" || res.Violations[0].Signature != sig {
+	if err != nil || res.Outcome != "violation" || !moveSigFirst(&res, sig) {
 		// fall back to the unshrunk tape
 		rs.Replay = v.Tape
 		res, err = replaySpec(bin, scratch, rs)
-		if err != nil || res.Outcome != "violation" || res.Violations[0].Signature != sig {
+		if err != nil || res.Outcome != "violation" || !moveSigFirst(&res, sig) {
 			return "", false
 		}
 	}
@@ -718,7 +734,7 @@ func replay(path string) int {
 		for _, v := range res.Violations {
 			fmt.Printf("violation: %s: %s (step %d)\n", v.Signature, v.Detail, v.Step)
 		}
-		if res.Violations[0].Signature == rf.Signature {
+		if moveSigFirst(&res, rf.Signature) {
 			fmt.Printf("VIOLATION property=%s replay=%s\n", rf.Property, path)
 			return 1
 		}
